@@ -270,70 +270,130 @@ type sut interface {
 	describe(in, out any) string
 }
 
-// runHistory executes p against s and returns the recorded history sorted by
-// call stamp.
-func runHistory(p *prog, s sut) []rawOp {
-	nG := len(p.gor)
-	var clk atomic.Int64
-	recs := make([][]rawOp, nG+1)
-	do := func(g int, op pop) {
-		for i := 0; i < op.pre; i++ {
-			runtime.Gosched()
-		}
-		r := rawOp{g: g}
-		func() {
-			defer func() {
-				if e := recover(); e != nil {
-					r.panicMsg = fmt.Sprint(e)
-					r.ret = clk.Add(1)
-				}
-			}()
-			r.call = clk.Add(1)
-			r.in, r.out = s.exec(g, op)
-			r.ret = clk.Add(1)
+// job is one history in flight.
+type job struct {
+	p       *prog
+	s       sut
+	nG      int
+	need    [5]int32
+	ready   atomic.Int32
+	arrived [5]atomic.Int32
+	clk     atomic.Int64
+	recs    [poolSize + 1][]rawOp // per goroutine slot; slot nG is the prefix
+}
+
+func (j *job) do(g int, op pop) {
+	for i := 0; i < op.pre; i++ {
+		runtime.Gosched()
+	}
+	r := rawOp{g: g}
+	func() {
+		defer func() {
+			if e := recover(); e != nil {
+				r.panicMsg = fmt.Sprint(e)
+				r.ret = j.clk.Add(1)
+			}
 		}()
-		recs[g] = append(recs[g], r)
+		r.call = j.clk.Add(1)
+		r.in, r.out = j.s.exec(g, op)
+		r.ret = j.clk.Add(1)
+	}()
+	j.recs[g] = append(j.recs[g], r)
+}
+
+const poolSize = 4
+
+// pool keeps the client goroutines of a group of histories alive and
+// spinning between histories. Goroutines that are started (or woken) per
+// history all begin on the starter's P and are only gradually stolen by other
+// Ps, so that most short histories are over before two of them ever run
+// simultaneously; workers that stay hot on their own Ps overlap for real.
+type pool struct {
+	gen  atomic.Int32
+	cur  atomic.Pointer[job]
+	done atomic.Int32
+	wg   sync.WaitGroup
+}
+
+func newPool() *pool {
+	pl := &pool{}
+	for w := 0; w < poolSize; w++ {
+		pl.wg.Add(1)
+		go pl.worker(w)
 	}
+	return pl
+}
+
+func (pl *pool) worker(w int) {
+	defer pl.wg.Done()
+	for last := int32(0); ; last++ {
+		spinWait(&pl.gen, last+1)
+		j := pl.cur.Load()
+		if j == nil {
+			return
+		}
+		if w < j.nG {
+			// start barrier: every client goroutine is running before the first operation
+			j.ready.Add(1)
+			spinWait(&j.ready, int32(j.nG))
+			for i, op := range j.p.gor[w] {
+				if j.p.rounds {
+					j.arrived[i].Add(1)
+					spinWait(&j.arrived[i], j.need[i])
+				}
+				j.do(w, op)
+			}
+		}
+		pl.done.Add(1)
+	}
+}
+
+func (pl *pool) close() {
+	pl.cur.Store(nil)
+	pl.gen.Add(1)
+	pl.wg.Wait()
+}
+
+// run executes p against s and returns the recorded history sorted by call
+// stamp.
+func (pl *pool) run(p *prog, s sut) []rawOp {
+	j := &job{p: p, s: s, nG: len(p.gor)}
 	for _, op := range p.prefix {
-		do(nG, op)
+		j.do(j.nG, op)
 	}
-	s.fork(nG)
-	var need [5]int32
+	s.fork(j.nG)
 	for _, ops := range p.gor {
 		for i := range ops {
-			need[i]++
+			j.need[i]++
 		}
 	}
-	var ready atomic.Int32
-	var arrived [5]atomic.Int32
-	var wg sync.WaitGroup
-	for g := 0; g < nG; g++ {
-		wg.Add(1)
-		go func(g int) {
-			defer wg.Done()
-			ready.Add(1)
-			for ready.Load() < int32(nG) {
-				runtime.Gosched()
-			}
-			for i, op := range p.gor[g] {
-				if p.rounds {
-					arrived[i].Add(1)
-					for arrived[i].Load() < need[i] {
-						runtime.Gosched()
-					}
-				}
-				do(g, op)
-			}
-		}(g)
-	}
-	wg.Wait()
+	pl.done.Store(0)
+	pl.cur.Store(j)
+	pl.gen.Add(1)
+	spinWait(&pl.done, poolSize)
 	var h []rawOp
-	for _, r := range recs {
+	for _, r := range j.recs {
 		h = append(h, r...)
 	}
-	sort.Slice(h, func(i, j int) bool { return h[i].call < h[j].call })
+	sort.Slice(h, func(a, b int) bool { return h[a].call < h[b].call })
 	return h
 }
+
+// spinWait waits until a >= need. It first spins without yielding: a wait
+// that yields at once is passed by goroutines taking turns on one P, i.e.
+// without any parallelism; a busy spinner keeps its P, so the other
+// goroutines end up on other Ps and a barrier release finds them running
+// simultaneously. After the spin budget it yields on every iteration, so it
+// also terminates with a single P.
+func spinWait(a *atomic.Int32, need int32) {
+	for i := 0; a.Load() < need; i++ {
+		if i > spinBudget {
+			runtime.Gosched()
+		}
+	}
+}
+
+const spinBudget = 300000
 
 // overlaps returns the number of pairs of operations of different goroutines
 // whose [call, return] intervals intersect.
@@ -402,12 +462,14 @@ func newSUT(kind string) sut {
 func runLinGroup(idx int, g group) {
 	ls := &linStats{kind: g.kind, opKinds: map[string]int{}}
 	defer ls.flush()
+	pl := newPool()
+	defer pl.close()
 	for sub := 0; sub < g.n; sub++ {
 		rng := mon.NewRNG("c14-lin-"+g.kind, idx*4096+sub)
 		p := genProg(g.kind, rng)
 		rec.Step(fmt.Sprintf("h=%d", sub))
 		s := newSUT(g.kind)
-		h := runHistory(p, s)
+		h := pl.run(p, s)
 		text := p.String()
 		replay := func() map[string]any {
 			return map[string]any{"structure": g.kind, "seed": mon.Seed(), "group": idx, "sub": sub, "program": text, "history": historyLines(s, h)}
